@@ -22,8 +22,9 @@ def _fresh_box(ev, t):
 
 
 class Canon(object):
-    def __init__(self, ev):
+    def __init__(self, ev, keep=()):
         self.ev = ev
+        self.keep = frozenset(keep)   # names that stay visible although they are normally looked through
         self.loops = {}
         self.keys = {}
         self.subst = {}
@@ -54,7 +55,7 @@ class Canon(object):
                 if len(rest) == 1 and isinstance(rest[0], tuple) and rest[0][:2] == ("agg", "tuple"):
                     rest = rest[0][3]
                 return ("apply", self.term(t[2][0]), tuple(self.term(a) for a in rest))
-            if name in ("deref", "deref_mut", "as_ref", "as_mut", "borrow", "into_iter", "iter", "iter_mut", "from", "into", "clone", "must_use") and t[2]:
+            if name in ("deref", "deref_mut", "as_ref", "as_mut", "borrow", "into_iter", "iter", "iter_mut", "from", "into", "clone", "must_use") and t[2] and name not in self.keep:
                 return self.term(t[2][0])
             return ("call", name, tuple(self.term(a) for a in t[2]))
         if k in ("elem", "iternext"):
@@ -116,7 +117,7 @@ class Canon(object):
         out = []
         for x in events:
             if x[0] == "call":
-                if x[2].name in QUIET:
+                if x[2].name in QUIET and x[2].name not in self.keep:
                     continue
                 out.append(self.term(x[4]) if x[4] is not None else ("call", x[2].name, tuple(self.term(a) for a in x[3])))
             elif x[0] == "store":
@@ -192,11 +193,11 @@ class Canon(object):
         return ("loop", name, repr(src), stages, carried, tuple(sorted(ways, key=repr)), repr(exit_how))
 
 
-def canonical(ev, ends):
+def canonical(ev, ends, keep=()):
     """A frozenset of path descriptions."""
     out = set()
     for e in ends:
-        c = Canon(ev)
+        c = Canon(ev, keep)
         evs = c.events(e.path.events)
         conds = c.conds(e.path)
         ret = repr(c.term(e.ret)) if e.ret is not None else None
